@@ -1,6 +1,6 @@
 (* C03 — Send always returns and leaves no goroutine behind, whatever the cancel point. *)
-From Coq Require Import List Bool Arith NArith.
-From Verif Require Import Alist Broker Dispatch DispatchProofs DispatchAcceptProofs Run_Dispatch DispatchExamples.
+From Coq Require Import Permutation List Bool Arith NArith.
+From Verif Require Import Alist Broker Dispatch DispatchProofs DispatchAcceptProofs Run_Dispatch DispatchExamples RunDispatchSound.
 Import ListNotations.
 
 (* Every step of the protocol — including cancellation at any moment — strictly decreases a natural-number measure, so every
@@ -69,6 +69,23 @@ Theorem C03_accepted_complete_no_goroutine : forall beh e0 want roots c0 tr a, r
   wg (a_st a) = 0 /\ forall t, In t (tasks (a_st a)) -> exists f, tstage t = SDone f.
 Proof. exact accepted_complete_no_goroutine. Qed.
 Print Assumptions C03_accepted_complete_no_goroutine.
+
+(* What the check's verdict means: the evaluated function [Run_Dispatch.mismatches] returns [] exactly when, for every case,
+   the recorded trace is an execution of the dispatch model from the pipelines and thresholds the registry model gives for
+   the recorded registration history, complete once quiet, the returned Status / error and the nodes' own logs are the
+   model's, and the observation-only oracles hold ([RunDispatchSound.case_ok]); both directions. *)
+Theorem C03_verdict_is_model_execution : forall cs, mismatches cs = [] <-> Forall case_ok cs.
+Proof. exact mismatches_nil_iff. Qed.
+Print Assumptions C03_verdict_is_model_execution.
+
+(* and therefore an accepted quiet Send has left nothing behind: not in the goroutine dump, and not in the model execution the
+   trace is (wait group balanced, every invocation returned) *)
+Theorem C03_verdict_no_goroutine : forall c roots, case_ok c -> model_roots c = Some roots -> roots_ok roots -> d_quiet c = true ->
+  d_leak c = false /\
+  exists a, reach (beh_of (d_trace c)) (e0_of (d_trace c)) roots (d_pre c) (a_st a) /\
+            wg (a_st a) = 0 /\ forall t, In t (tasks (a_st a)) -> exists f, tstage t = SDone f.
+Proof. exact verdict_no_goroutine. Qed.
+Print Assumptions C03_verdict_no_goroutine.
 
 (* "Promptly" in wall-clock time is not a theorem: it is measured by the harness (C03_..._partial in that sense only). *)
 
